@@ -509,6 +509,13 @@ class OpsMixin:
         if isinstance(c, VObj):
             yield from self.obj_contains(ex, p, c, item, node)
             return
+        if isinstance(c, VOpaque):
+            ct = self.opaque_contract(ex, c, "__contains__")
+            if ct is None:
+                raise Unsupported("membership test in opaque %s at line %s" % (c.tag, getattr(node, "lineno", "?")))
+            for p1, r in ex.apply_contract(p, ct, [item], {}, node, self_val=c):
+                yield p1, ex.truth(p1, r)
+            return
         if isinstance(c, VDict):
             acc = z3.BoolVal(False)
             for k, _ in c.items:
